@@ -598,6 +598,12 @@ func allTargets() []*target {
 		if t.strN == 0 {
 			t.strN = 2
 		}
+		// stateful handlers of the packages compiled with the cooperative sync shims (see REWRITE) also get the
+		// Engine B deadlock pass; synctest parts (precheck) and child-process parts are excluded
+		if t.strN < 3 && !t.isolate && t.precheck == nil && !strings.Contains(t.name, "Parse") &&
+			(strings.HasPrefix(t.name, "pppoe.") || strings.HasPrefix(t.name, "ha.HASyncer") || strings.HasPrefix(t.name, "dhcp.Server")) {
+			t.deadlockPass = true
+		}
 		ts = append(ts, t)
 	}
 
